@@ -240,7 +240,10 @@ Definition seq_exprs (s : sequence) : list (option expr) * list string :=
 
 Definition oexpr_cmp (inexact : bool) (pts : list (string -> Q)) (a b : option expr) : list nat :=
   match a, b with
-  | Some x, Some y => map (fun r => cmpx inexact r x y) pts
+  | Some x, Some y =>
+      (* equal values at the points, and the same free symbols (an iterator that escapes its binder shows here even
+         where the value is undecided) *)
+      ((if same_set String.eqb (fv x) (fv y) then 0%nat else 1%nat) :: map (fun r => cmpx inexact r x y) pts)
   | None, None => [0%nat]
   | _, _ => [1%nat]
   end.
